@@ -36,6 +36,12 @@ type c33Pop struct {
 	chain     string
 	nodes     []c33Node
 	maxChains int64
+	// when split, the stub answers a ctx at startHeight with the session-start world (every listed node present,
+	// unjailed, staked for the chain) and any other ctx with the reference world, whose by-chain list additionally
+	// holds newcomers that are perfectly eligible at the reference height but were not staked at session start
+	split       bool
+	startHeight int64
+	newcomers   []sdk.Address
 }
 
 func (p c33Pop) stub() *stubPos {
@@ -61,6 +67,23 @@ func (p c33Pop) stub() *stubPos {
 		}
 		s.vals[n.addr.String()] = nodesTypes.Validator{Address: n.addr, Jailed: n.jailed, Status: sdk.Staked, Chains: chains,
 			StakedTokens: sdk.NewInt(15000000000), OutputAddress: n.addr}
+	}
+	if p.split {
+		s.startHeight = p.startHeight
+		s.startVals = map[string]nodesTypes.Validator{}
+		s.byChainLater = map[string][]sdk.Address{}
+		for _, n := range p.nodes {
+			s.startVals[n.addr.String()] = nodesTypes.Validator{Address: n.addr, Status: sdk.Staked, Chains: []string{p.chain},
+				StakedTokens: sdk.NewInt(15000000000), OutputAddress: n.addr}
+		}
+		later := append([]sdk.Address{}, p.newcomers...)
+		for i := len(p.nodes) - 1; i >= 0; i-- {
+			later = append(later, p.nodes[i].addr)
+		}
+		s.byChainLater[p.chain] = later
+		for _, a := range p.newcomers {
+			s.vals[a.String()] = nodesTypes.Validator{Address: a, Status: sdk.Staked, Chains: []string{p.chain}, StakedTokens: sdk.NewInt(15000000000), OutputAddress: a}
+		}
 	}
 	return s
 }
@@ -99,12 +122,13 @@ func TestC33(t *testing.T) {
 		"NewSession/NewSessionNodes against a data-only PosKeeper stub: session node count 1..25 (the range params validation admits); the population is constructed as "+
 			"(count + slack) eligible nodes, slack in {0,+-1,+-2,+-4,9,20}, plus 0..13 ineligible nodes {jailed, missing, relay chain dropped, over the chain limit when enforced} at generated "+
 			"positions of the session-start list; 1..22 chains per node incl. exactly at the limit; max-chains 1..20, "+
-			"enforce-max-chains feature {never, scheduled later, active by height, TestMode -3}, generated app key / chain / block hash. Oracle: E = nodes of the session-start list that at the "+
+			"enforce-max-chains feature {never, scheduled later, active by height, TestMode -3}, generated app key / chain / block hash; the stub answers a ctx at the session height with the session-start world (all listed nodes fine) and any other ctx with the "+
+			"reference world (generated attributes, by-chain list reordered and extended by 3 eligible newcomers). Oracle: E = nodes of the session-start list that at the "+
 			"reference height exist, are not jailed, still list the chain and (when enforced) have <= max-chains chains; |E| >= count <=> no error, and then exactly count nodes, distinct, all in E; "+
 			"two runs on independently built equal stubs return the same ordered list; each run ends within 30 s (> 10^4 x the normal duration; only bound). "+
 			"non-trivial = |E| within 2 of count, or at least one ineligible node in the population",
 		map[string]float64{"exact-fit": 0.05, "one-short": 0.05, "error-expected": 0.15, "success-expected": 0.4, "has-jailed": 0.3, "has-overchained-enforced": 0.1, "has-missing": 0.2,
-			"has-chain-dropped": 0.2, "enforce-on": 0.25, "enforce-off": 0.25, "list-shorter-than-count": 0.05},
+			"has-chain-dropped": 0.2, "enforce-on": 0.25, "enforce-off": 0.25, "list-shorter-than-count": 0.05, "worlds-differ": 0.5},
 		func(rt *rapid.T, c *harness.Case) {
 			resetGlobals()
 			count := rapid.IntRange(1, 25).Draw(rt, "count")
@@ -122,6 +146,7 @@ func TestC33(t *testing.T) {
 			}
 			sessionHeight := int64(rapid.IntRange(1, 5000).Draw(rt, "sessionHeight"))
 			refHeight := sessionHeight + int64(rapid.IntRange(0, 30).Draw(rt, "refOffset"))
+			split := refHeight != sessionHeight
 			enforce := false
 			enforceKind := rapid.SampledFrom([]string{"never", "later", "by-height", "by-height-exact", "testmode"}).Draw(rt, "enforceKind")
 			switch enforceKind {
@@ -139,7 +164,15 @@ func TestC33(t *testing.T) {
 			}
 			seed := rapid.Uint64().Draw(rt, "seed")
 			chain := fmt.Sprintf("%04X", rapid.IntRange(1, 0x0fff).Draw(rt, "chain"))
-			pop := c33Pop{chain: chain, maxChains: maxChains}
+			pop := c33Pop{chain: chain, maxChains: maxChains, split: split, startHeight: sessionHeight}
+			if split {
+				c.Label("worlds-differ")
+				for i := 0; i < 3; i++ {
+					pop.newcomers = append(pop.newcomers, sdk.Address(detBytes(20, "c33-newcomer", seed, uint64(i))))
+				}
+			} else {
+				c.Label("reference-height-is-session-height")
+			}
 			eligible := map[string]bool{}
 			listed := map[string]bool{}
 			ineligible := 0
